@@ -23,7 +23,7 @@ def run(R):
     rng = R.rng
     quick = R.tier == 'quick'
     R.rule = ('all 256 workchains x account ids {0..0, f..f, single-bit, random} x 9 renderings (raw + bounceable x test-only x '
-              'url-safe); for sampled addresses every one of the 48 x 63 single-character substitutions within the alphabet; '
+              'url-safe), each parsed address re-rendered in all 9 forms; for sampled addresses every one of the 48 x 63 single-character substitutions within the alphabet; '
               'distinct = distinct (wc, id, rendering) or distinct substituted string; non-trivial = all')
     R.assumptions = ['"another base64 character" = another symbol of the same 64-symbol alphabet as the string ("-"<->"+" and '
                      '"_"<->"/" denote the same digit and are not substituted for each other)']
@@ -49,6 +49,8 @@ def run(R):
         else:
             R.check(b == a and b.wc == wc and b.hash_part == hp, 'raw-roundtrip', 'raw form parses to another address', W)
             R.check(hash(b) == hash(a), 'hash-equal-addresses', 'equal addresses hash differently', W)
+            for (b2, t2, u2) in variants[:: 3]:
+                R.check(b.to_str(True, u2, b2, t2) == friendly_ref(wc, hp, b2, t2, u2), 'rerender-of-parsed-address', 'friendly rendering of a parsed raw address differs', W)
         R.case(mon.fp('raw', wc, hp))
         for (bounce, test, url) in variants:
             s = a.to_str(True, url, bounce, test)
@@ -62,6 +64,15 @@ def run(R):
             R.check(b.is_bounceable == bounce and b.is_test_only == test, 'friendly-flags',
                     f'flags after parse: bounceable={b.is_bounceable} test_only={b.is_test_only}, rendered with {bounce}/{test}', dict(W, s=s))
             R.check(hash(b) == hash(a) and len({a, b}) == 1, 'hash-equal-addresses', 'equal addresses hash differently / do not collide in a set', W)
+            # an address object that came out of the parser renders like any other: the flags it was parsed with are defaults of nothing
+            for (b2, t2, u2) in variants:
+                st2, s2 = mon.call(b.to_str, True, u2, b2, t2)
+                R.check(st2 == 'ok' and s2 == friendly_ref(wc, hp, b2, t2, u2), 'rerender-of-parsed-address',
+                        f'address parsed from a (bounceable={bounce}, test_only={test}) string and rendered with bounceable={b2}, test_only={t2} gives another variant',
+                        dict(W, parsed_from=s, got=s2 if st2 == 'ok' else repr(s2), want=friendly_ref(wc, hp, b2, t2, u2)))
+                R.count('rerenders_of_parsed')
+            st2, s2 = mon.call(b.to_str, False)
+            R.check(st2 == 'ok' and s2 == raw, 'rerender-of-parsed-address-raw', 'raw rendering of a parsed friendly address differs', dict(W, parsed_from=s))
             R.count('friendly_roundtrips')
             R.case(mon.fp('f', wc, hp, bounce, test, url))
         R.cover('workchains', wc)
@@ -109,6 +120,7 @@ def run(R):
     if R.nshards == 1:
         R.floor('workchains', 256, 'set')
     R.floor('substitutions', 48 * 63 * min(n_sub, 2))
+    R.floor('rerenders_of_parsed', 1000)
 
 
 def replay(R, w, rec):
